@@ -208,7 +208,14 @@ def end_to_end(ctx, rng, xr):
     A = np.array([gen.spectrum(rng, f, th, "multimodal")[0] for _ in range(T)])
     da = gen.make_da(A, f, th, ["time"], [T])
     co = {"time": da.time}
-    w = xr.DataArray(rng.uniform(3, 20, T), dims=["time"], coords=co)
+    wv = rng.uniform(3, 20, T)
+    calm = bool(rng.random() < 0.4)
+    if calm:
+        # records without any wind (exactly 0 m/s): the swells present are still wave systems to be identified
+        wv[rng.random(T) < 0.5] = 0.0
+        wv[int(rng.integers(T))] = 0.0
+        rec.note("ptm1_track_calm_records")
+    w = xr.DataArray(wv, dims=["time"], coords=co)
     wd = xr.DataArray(rng.uniform(0, 360, T), dims=["time"], coords=co)
     dp = xr.DataArray(np.full(T, 50.0), dims=["time"], coords=co)
     try:
